@@ -26,7 +26,7 @@ MANIFEST_INFO = {
     "engine": "B",
     "design_ref": "DESIGN.md section 5, C08",
     "technique": "exhaustive enumeration of well-formed TestResult call histories (startTestRun, tags, time, startTest, six outcomes as exc_info / reason / four details shapes, stopTest, progress, stopTestRun, stop, done; TestCase and PlaceHolder/ErrorHolder tests) x every adapter stack of depth 1..3 over five target flavours, each history replayed on fresh real objects; per-target expected log derived from the documented degradation table",
-    "level_text": "For every stack of ExtendedToOriginalDecorator / MultiTestResult (1-2 branches) / TestResultDecorator / Tagger of depth <= 2 (quick) / 3 (thorough) over 2.6-style, 2.7-style, extended, Twisted-style and testtools.TestResult targets, plus TestByTestResult, and every history of <= 2 (quick) / 3 (thorough, reduced alphabet) tests over 58 test variants, every innermost target's log is projected onto startTest/outcome/stopTest and compared with the reported sequence mapped through the degradation table (exactly once, in order, nothing extra), details-to-text containment, unchanged details for extended targets, Tagger tags inside the test, one TestByTestResult callback per test with its times (the second test's clock is set back while it runs)/tags/details/status, one startTestRun/stopTestRun per run at every target (stop() and done() after it are no further runs), and no failing outcome delivered as a passing one.",
+    "level_text": "For every stack of ExtendedToOriginalDecorator / MultiTestResult (1-2 branches) / TestResultDecorator / Tagger of depth <= 2 (quick) / 3 (thorough) over 2.6-style, 2.7-style, extended, Twisted-style and testtools.TestResult targets, plus TestByTestResult, and every history of <= 2 (quick) / 3 (thorough, reduced alphabet) tests over 60 test variants (incl. a failure carrying a text detail that is not valid in its declared charset), every innermost target's log is projected onto startTest/outcome/stopTest and compared with the reported sequence mapped through the degradation table (exactly once, in order, nothing extra), details-to-text containment, unchanged details for extended targets, Tagger tags inside the test, one TestByTestResult callback per test with its times (the second test's clock is set back while it runs)/tags/details/status, one startTestRun/stopTestRun per run at every target (stop() and done() after it are no further runs), and no failing outcome delivered as a passing one.",
     "level_note": "Non-extended targets always sit directly under an ExtendedToOriginalDecorator or MultiTestResult (TestResultDecorator/Tagger pass details= through unchanged by design); for unexpected success TestByTestResult's status word may be 'success' (as documented) or a failing word.",
 }
 
@@ -55,6 +55,9 @@ def make_details(shape, marker):
         return {"d1": text_content(marker + "-one"), "d2": Content(TXT, lambda: [(marker + "-two\nline2").encode("utf8")]), "traceback": text_content(marker + "-tb"), "traceback-1": text_content(marker + "-later")}
     if shape == "reason":
         return {"reason": text_content(marker + "-why"), "d": text_content(marker + "-text")}
+    if shape == "badtext":
+        # a captured log declared as UTF-8 text that is not valid UTF-8 (a child process wrote Latin-1)
+        return {"d": text_content(marker + "-text"), "log": Content(TXT, lambda: [b"caf\xe9 \xff log"])}
     if shape == "emptydict":
         return {}  # what PlaceHolder(...).run() passes when it was given no details
     raise AssertionError(shape)
@@ -77,6 +80,8 @@ for o in ("addSuccess", "addUnexpectedSuccess"):
 for o in ("addError", "addFailure", "addExpectedFailure"):
     for f in ("exc", "text", "binary+empty", "several", "emptydict"):
         VARIANTS.append((o, f))
+VARIANTS.append(("addError", "badtext"))
+VARIANTS.append(("addFailure", "badtext"))
 for f in ("reasonarg", "text", "reason", "several", "emptydict", "emptyreason"):
     VARIANTS.append(("addSkip", f))
 TEST_KINDS = ("case", "placeholder")
@@ -331,7 +336,10 @@ def detail_texts(details):
     out = []
     for name, c in (details or {}).items():
         if c.content_type.type == "text":
-            t = c.as_text().strip()
+            try:
+                t = c.as_text().strip()
+            except UnicodeDecodeError:
+                continue  # (what cannot be decoded cannot be looked for: the other details still can)
             if t:
                 out.append(t)
     return out
